@@ -9,7 +9,7 @@ def cmp_cfg(carrier, maxlen, inv, export=True):
                       "INVARIANT %s" % inv, ("INVARIANT Export" if export else ""), "CHECK_DEADLOCK FALSE", ""])
 
 
-def compare_stage(prop, tier, name):
+def compare_stage(prop, tier, name, only=None):
     wd = workdir(prop)
     stage_spec(wd, ["Compare.tla", "MC_Compare.tla"])
     exe = build_harness("a")
@@ -46,6 +46,8 @@ def compare_stage(prop, tier, name):
     for v in s["violations"]:
         seen.setdefault(v["key"], []).append(v["msg"])
     for k, msgs in seen.items():
+        if only and not any(o in k for o in only):
+            continue
         res["violations"].append({"stage": name, "key": k, "errors": ["[compare] %s -- e.g. %s" % (k, msgs[0])]})
     return res
 
